@@ -8,7 +8,7 @@ import sim_engine as SE
 from par import pmap
 
 PROP = "C02"
-PROPERTY_FILES = ["Properties/C02.v"]
+PROPERTY_FILES = ["Properties/C02.v", "Properties/C02pool.v"]
 META = dict(
     level_text="Theorems (Coq) about the engine model (four FIFO task queues + blocking handler, wired as BoboEngine "
                "does), for every engine configuration (times_* any naturals, early_stop on/off), every pattern set, "
@@ -19,15 +19,31 @@ META = dict(
                "a phenomenon with an action; action events ++ handler queue = responses of the executions; every "
                "complex and action event re-enters the receiver exactly once; halted runs contribute to none; at "
                "quiescence the logs are in one-to-one correspondence; each update() cycle consumes the head of every "
-               "non-empty task queue (nothing is stranded) and the while-loops terminate. PARTIAL: pool handlers' "
-               "scheduling is covered by C20's model; interleaving = sequential composition of atomic task updates.",
+               "non-empty task queue (nothing is stranded) and the while-loops terminate. ASYNCHRONOUS (pool) "
+               "handlers, Properties/C02pool.v over Model/EnginePool.v (same receiver/decider/producer/loops; handing a "
+               "complex event over puts a job in flight, `Complete k` = any in-flight job finishes at any time, every "
+               "forwarder update polls the handler once and takes the oldest response): the conservation invariant "
+               "PInv in every state reachable by any interleaving of add_data / update() / Complete k / remote notes, "
+               "also at the grain of single task updates (completions in the middle of update()): executions = one per "
+               "handled complex event with an action ~ (permutation) reported ++ response queue ++ in flight, action "
+               "events = delivered responses in completion order each with its own job's data, each re-enters the "
+               "receiver once; one-to-one at quiescence (queues empty, nothing in flight); progress: a cycle that "
+               "starts with a non-empty response queue delivers its oldest response whatever the four task queues "
+               "hold (false of an engine that skips idle rounds - refuted variant in the file), the i-th finished job "
+               "is the i-th action event within i+1 cycles, times_forwarder=0 drains the response queue. PARTIAL: "
+               "which worker finishes when is the environment's choice (oracle), pickling and queue bounds are not "
+               "modelled; interleaving = sequential composition of atomic task updates.",
     level_note="Trusted: Coq kernel; harness mirrors; RLock mutual exclusion makes task updates atomic; deterministic "
                "id/timestamp generators in the harness.",
     rule="op sequences over {add_data d, update()} (+ remote notes) for every configuration times_* in 0..2 x "
          "early_stop (162, all covered), phenomena with/without action and datagen, patterns that do and do not "
-         "consume fed-back events; non-trivial = at least one run completed",
+         "consume fed-back events; non-trivial = at least one run completed. Pool model: the same space plus "
+         "`complete k` operations on the REAL BoboActionHandlerMultithreading (2-4 workers), the harness choosing "
+         "which running job finishes through per-job gates, every case drained (complete oldest, update) at the end; "
+         "sizes, in-flight count and log lengths compared after EVERY operation, full logs at the end",
     trusted_base=["harness/sim_engine.py, predlang.py"],
-    assumptions=["task update() calls are atomic (per-task RLock)", "validator accepts everything (C18 covers validators)"])
+    assumptions=["task update() calls are atomic (per-task RLock)", "validator accepts everything (C18 covers validators)",
+                 "pool model: a worker's execute + queue.put is one atomic completion; unbounded queues; actions return"])
 
 CONFIGS = [(a, b, c, d, e) for a in range(3) for b in range(3) for c in range(3) for d in range(3) for e in (True, False)]
 
@@ -49,6 +65,16 @@ def gen_cases(ctx):
                 cfg = dict(phen=phen, maxcache=rng.choice([0, 20]), idbase=1000)
             else:
                 cfg = G.rand_config(rng, maxblocks=4)
+                # fed-back complex/action events may be consumed by later blocks, but (except in one case in eight,
+                # kept small) they start no run: otherwise every event breeds several and the stream explodes
+                free = rng.random() < 0.125
+                if free:
+                    cfg["phen"] = [(cfg["phen"][0][0], cfg["phen"][0][1][:1])]
+                else:
+                    for _ph, ps in cfg["phen"]:
+                        for p in ps:
+                            b0 = p["blocks"][0]
+                            b0["preds"] = [("and", ("kind", 0), q) for q in b0["preds"]]
             phs = [k for k, _ in cfg["phen"]]
             ed = dict(cfg=cfg, tr=tr, td=td, tp=tp, tf=tf, early=early, local_only=rng.random() < 0.8,
                       datagen=[(k, 70 + k) for k in phs if rng.random() < 0.5],
@@ -66,14 +92,20 @@ def gen_cases(ctx):
                     evpool = [(900 + k, 50 + k, 0, (k % 5) + 1, 0, 0) for k in range(4)]
                     ops.append(("remote", G.rand_note(rng, cfg, idmap, evpool)))
             ops += [("update",)] * rng.randint(0, 4)
+            if sum(1 for o in ops if o[0] == "update") > 7 and "free" in dir() and free:
+                ops = [o for o in ops if o[0] != "update"] + [("update",)] * 7
+            free = False
             cases.append((ed, ops))
     return cases
 
 
 def drain(engine, handler, cap=60):
     for _ in range(cap):
-        if sum(SE.sizes(engine, handler)) == 0:
+        n = sum(SE.sizes(engine, handler))
+        if n == 0:
             return True
+        if n > 300:              # a pattern that feeds on its own complex / action events: the stream only grows
+            return False
         engine.update()
     return sum(SE.sizes(engine, handler)) == 0
 
@@ -179,6 +211,140 @@ def pool_half(ctx, res):
             res.failures.append(f)
 
 
+# ------------------------------------------------------------------------------------------------------------
+# the engine on the real thread-pool handler vs Model/EnginePool.v (run_C02pool); completion order by gates
+def gen_pool_cases(ctx):
+    rng = ctx.rng
+    cases = []
+    reps = 3 if ctx.quick else 40
+    for tr, td, tp, tf, early in CONFIGS:
+        for _ in range(reps):
+            fam = rng.random()
+            if fam < 0.45:      # completes on every datum 1: several jobs in flight at once
+                cfg = dict(phen=[(1, [G.pattern(1, [G.blk([("and", ("kind", 0), ("deq", 1))], "R", 1)])])],
+                           maxcache=rng.choice([0, 20]), idbase=1000)
+                if rng.random() < 0.3:   # a second phenomenon fed by the complex events of the first
+                    cfg["phen"].append((2, [G.pattern(2, [G.blk([("cof", 1, 1)], "R", 1)])]))
+            elif fam < 0.8:
+                shape = rng.choice(G.shapes(2))
+                pats = [G.pattern(1, G.assign(shape, rng.choice([0, 1]), "distinct"), *G.VARIANTS[rng.choice([0, 0, 1, 3])])]
+                phen = [(1, pats)]
+                if rng.random() < 0.3:   # a second phenomenon that consumes complex events of the first
+                    phen.append((2, [G.pattern(2, [G.blk([("cof", 1, 1)], "R", 1), G.blk([("deq", 2)], "R", 2)])]))
+                cfg = dict(phen=phen, maxcache=rng.choice([0, 20]), idbase=1000)
+            else:
+                cfg = G.rand_config(rng, maxblocks=3)
+            phs = [k for k, _ in cfg["phen"]]
+            ed = dict(cfg=cfg, tr=tr, td=td, tp=tp, tf=tf, early=early, local_only=rng.random() < 0.8,
+                      datagen=[(k, 70 + k) for k in phs if rng.random() < 0.5],
+                      act=[(k, (k, rng.random() < 0.7, 90 + k)) for k in phs if k == 1 or rng.random() < 0.8])
+            ops = []
+            if rng.random() < 0.6:      # a burst first: input, then cycles, so that jobs pile up in flight
+                ops += [("add", rng.choice([1, 1, 1, 2]))] * 1 * rng.randint(2, 4)
+                ops += [("update",)] * rng.randint(1, 3)
+            for _ in range(rng.randint(4, 12)):
+                r = rng.random()
+                if r < 0.4:
+                    ops.append(("add", rng.choice([1, 2, 3, 1, 2, 1, 1, 2, 4, 0, -1])))
+                elif r < 0.68:
+                    ops.append(("update",))
+                elif r < 0.95 or cfg["maxcache"] == 0:
+                    ops.append(("complete", rng.randint(0, 5)))
+                else:
+                    pats = [(ph, p) for ph, ps in cfg["phen"] for p in ps]
+                    idmap = {2000 + i: rng.choice(pats) for i in range(2)}
+                    evpool = [(900 + k, 50 + k, 0, (k % 5) + 1, 0, 0) for k in range(4)]
+                    ops.append(("remote", G.rand_note(rng, cfg, idmap, evpool)))
+            cases.append((ed, ops, rng.randint(2, 4)))
+    return cases
+
+
+def pool_oracle(ed, ops, pr):
+    """the property itself on the implementation (no model): after the drain phase"""
+    log, engine, handler = pr.log, pr.engine, pr.handler
+
+    def bad(sig, what, detail=None):
+        return dict(signature=sig, what=what, detail=detail)
+    if pr.lost:
+        return bad("pool-handler-response-lost-or-stranded",
+                   "%d job(s) finished on the thread pool but no response reached the handler queue" % pr.lost)
+    sz = SE.sizes(engine, handler)
+    if not pr.quiet():
+        if sum(sz[:4]) == 0 and not pr.inflight:
+            return bad("pool-handler-response-lost-or-stranded",
+                       "all four task queues empty, no job in flight, update() called %d more times, but %d response(s) "
+                       "still wait in the handler queue: %d executions, %d action events"
+                       % (sum(1 for o in ops if o[0] == "update"), sz[4], len(log["execs"]), len(log["aevents"])))
+        return None          # a pattern that feeds on its own action events: never quiescent, nothing to count
+    adds = [op[1] for op in ops if op[0] == "add"]
+    seen, comp, cx = log["seen"], log["completed"], log["complex"]
+    simple = [PL.dval(e) for e in seen if PL.kind_of(e) == 0]
+    if simple != adds:
+        return bad("data-lost-duplicated-or-reordered", "data accepted %s but the decider saw simple events %s" % (adds, simple))
+    if len(cx) != len(comp):
+        return bad("complex-event-count", "%d completed runs but %d complex events" % (len(comp), len(cx)))
+    acts = dict(ed["act"])
+    expect = sorted(PL.ev_code(e) for e, loc in cx if (loc or not ed["local_only"]) and PL.code_of(e.phenomenon_name) in acts)
+    if expect != sorted(pr.submitted) or expect != sorted(x[1] for x in log["execs"]):
+        return bad("action-execution-count", "complex events needing an action %s, handed to the handler %s, executed %s"
+                   % (expect, sorted(pr.submitted), sorted(x[1] for x in log["execs"])))
+    if len(log["aevents"]) != len(expect) or sorted(pr.responses) != expect:
+        return bad("action-event-count", "%d executions (complex events %s) but %d action events reporting %s"
+                   % (len(expect), expect, len(log["aevents"]), sorted(pr.responses)))
+    cx_by = {PL.ev_code(e): e for e, _ in cx}
+    for ae, ceid in zip(log["aevents"], pr.responses):
+        ce = cx_by[ceid]
+        a = acts[PL.code_of(ce.phenomenon_name)]
+        if (ae.action_name, ae.success, ae.data, ae.phenomenon_name, ae.pattern_name) != \
+                ("act%d" % a[0], a[1], a[2], ce.phenomenon_name, ce.pattern_name):
+            return bad("action-event-content", "action event does not report its own execution's name/success/data/phenomenon/pattern")
+    fed = sorted(PL.ev_code(e) for e in seen if PL.kind_of(e) != 0)
+    made = sorted([PL.ev_code(e) for e, _ in cx] + [PL.ev_code(e) for e in log["aevents"]])
+    if fed != made:
+        return bad("feedback-count", "complex/action events produced %s but re-entered the stream %s" % (made, fed))
+    return None
+
+
+def work_pool(case, resolved=False):
+    ed, ops, workers = case
+    out, done, pr = SE.run_pool_ops(ed, ops, workers, resolved=resolved)
+    fail = pool_oracle(ed, done, pr)
+    ncomplete = sum(1 for o in done if o[0] == "complete")
+    reordered = pr.responses != sorted(pr.responses)
+    return out, done, len(pr.submitted), ncomplete, reordered, pr.quiet(), fail
+
+
+def pool_corr(ctx, res):
+    cases = gen_pool_cases(ctx)
+    results = pmap(work_pool, cases)
+    coq_cases, meta = [], []
+    for (ed, ops, workers), (out, done, nsub, ncomp, reord, quiet, fail) in zip(cases, results):
+        case = dict(ed=ed, ops=done, handler="pool-gated", workers=workers)
+        res.note_case(("poolcorr", SE.edesc_coq(ed), repr(done), workers), nsub > 0)
+        res.count("pool_cfg_%d%d%d%d_%s" % (ed["tr"], ed["td"], ed["tp"], ed["tf"], "e" if ed["early"] else "n"))
+        res.count("pool_quiescent" if quiet else "pool_self_feeding_not_drained")
+        res.count("pool_jobs_%s" % (nsub if nsub < 4 else "4+"))
+        if reord:
+            res.count("pool_completion_order_differs_from_submission_order")
+        coq_cases.append((SE.pool_case_coq(ed, done), out))
+        meta.append(case)
+        if fail:
+            res.failures.append(dict(signature=fail["signature"], what=fail["what"], case=case, detail=fail["detail"]))
+    res.extra["pool_configurations_covered"] = sum(1 for k in res.distribution if k.startswith("pool_cfg_"))
+    res.distribution = {k: v for k, v in res.distribution.items() if not k.startswith("pool_cfg_")}
+    res.samples.append(meta[0])
+    mism, errs = common.coq_run_cases("C02pool", SE.IMPORTS_POOL, "run_C02pool", "(edesc * list pop)", coq_cases, shard=100)
+    res.errors += errs
+    res.traces_validated += len(coq_cases) - len(mism)
+    mism.sort(key=lambda m: len(repr(meta[m[0]])))
+    res.extra["pool_model_cases"] = len(coq_cases)
+    res.extra["pool_model_mismatches"] = len(mism)
+    if mism:
+        res.extra["pool_model_first_mismatch"] = dict(case=meta[mism[0][0]], impl=coq_cases[mism[0][0]][1], model=mism[0][1])
+    for idx, model_out in mism[:10]:
+        res.mismatches.append(dict(case=meta[idx], impl=coq_cases[idx][1], model=model_out))
+
+
 def run(ctx, res):
     pool_half(ctx, res)
     cases = gen_cases(ctx)
@@ -199,8 +365,12 @@ def run(ctx, res):
     mism, errs = common.coq_run_cases("C02", SE.IMPORTS, "run_engine", "(edesc * list eop)", coq_cases, shard=100)
     res.errors += errs
     res.traces_validated = len(coq_cases) - len(mism)
+    res.extra["blocking_model_cases"] = len(coq_cases)
+    res.extra["blocking_model_mismatches"] = len(mism)
     for idx, model_out in mism[:10]:
         res.mismatches.append(dict(case=dict(ed=cases[idx][0], ops=cases[idx][1]), impl=coq_cases[idx][1], model=model_out))
+    pool_corr(ctx, res)
+    res.failures.sort(key=lambda f: len(repr(f["case"])))
 
 
 def replay(obj):
@@ -210,6 +380,8 @@ def replay(obj):
         print(obj)
         return 0
     ed = case["ed"]
+    if case.get("handler") == "pool-gated":
+        return replay_pool(case)
     if case.get("handler") == "multithreading":
         cfg, _ = pC12.norm_case(dict(cfg=ed["cfg"], ops=[]))
         for _ph, ps in cfg["phen"]:
@@ -236,4 +408,32 @@ def replay(obj):
     print("implementation:", out)
     print("model         :", model)
     print("oracle        :", fail or "one complex event, one action run, one action event per completed run")
+    return 1 if (fail or model != out) else 0
+
+
+def replay_pool(case):
+    import pC12
+    ed = case["ed"]
+    cfg, _ = pC12.norm_case(dict(cfg=ed["cfg"], ops=[]))
+    ed["cfg"] = cfg
+    ed["act"] = [(k, tuple(a)) for k, a in ed["act"]]
+    ed["datagen"] = [tuple(x) for x in ed["datagen"]]
+    ops = []
+    for o in case["ops"]:
+        if o[0] == "remote":
+            ops.append(pC12.norm_case(dict(cfg=dict(phen=[]), ops=[o]))[1][0])
+        else:
+            ops.append(tuple(o))
+    out, done, _, _, _, _, fail = work_pool((ed, ops, case["workers"]), resolved=True)
+    model, _ = common.coq_eval("C02pr", SE.IMPORTS_POOL, "run_C02pool %s" % SE.pool_case_coq(ed, done))
+    print("handler       : BoboActionHandlerMultithreading(%d), completion order imposed through gates" % case["workers"])
+    print("operations    :", done)
+    print("implementation:", out)
+    print("model         :", model)
+    if model != out:
+        n = next((i for i, (a, b) in enumerate(zip(out, model)) if a != b), min(len(out), len(model)))
+        print("first difference at position %d (operation %d; after each operation: -5, size of receiver, decider, "
+              "producer, forwarder, handler queue, jobs in flight, events published, complex events, jobs handed over, "
+              "action events)" % (n, n // 11 + 1))
+    print("oracle        :", fail or "one complex event, one execution, one action event per completed run; no response stranded")
     return 1 if (fail or model != out) else 0
